@@ -21,4 +21,6 @@ def run(P, R, L):
     R.clause("ERR-2", "a read error stored by the merging iterator over the compaction inputs (a damaged input table) is consulted on every "
              "path to install_compaction_results — otherwise the damaged input is deleted as 'compacted'")
     K.err2_iterator_status(P, R, L)
+    R.clause("GRD-18", "short reads are noticed: outside the file-system layer every read is read_exact or has its byte count compared with the expected length")
+    K.grd18_short_reads(P, R, L)
     R.not_decided += ["detection probability", "behaviour for a concrete flipped byte"]
